@@ -263,13 +263,13 @@ MUTANTS = [
     ("c15-guard-not-on-eigenvalues", ["C15"], "R1", H,
      "        if (np.abs(eval_differences) > ERROR_THRESHOLD).any():",
      "        if (np.abs(expected_evals) > 2).any():"),
-    ("c15-eig-no-transpose", ["C15", "C16"], "EIG1", H,
+    ("c15-eig-no-transpose", ["C15"], "EIG1", H,
      "        eigvals, eigvecs = utils.eig(self.proj_data.swapaxes(-1, -2))\n        norms = utils.normsq(",
      "        eigvals, eigvecs = utils.eig(self.proj_data)\n        norms = utils.normsq("),
     ("c15-reflection-conjugation-order", ["C15"], "REF1", H,
      "        refdata = (utils.invert(dual_data) @\n                   self.minkowski @\n                   dual_data)",
      "        refdata = (dual_data @\n                   self.minkowski @\n                   utils.invert(dual_data))"),
-    ("c16-eigenvector-no-transpose", ["C16", "C15"], "EIG1", P,
+    ("c16-eigenvector-no-transpose", ["C16"], "EIG1", P,
      "        eigvals, eigvecs = utils.eig(self.proj_data.swapaxes(-1, -2))\n        eigvec_coords",
      "        eigvals, eigvecs = utils.eig(self.proj_data)\n        eigvec_coords"),
     # ---- C16
@@ -359,7 +359,7 @@ SEEDED = [
     ("r2-C12-1", "C12", "OF1"),
     ("r2-C13-1", "C13", "ODD1"), ("r2-C13-2", "C13", "HD1"),
     ("r2-C14-2", "C14", "X3"),
-    ("r2-C15-1", "C14", "AX1"),
+    ("r2-C15-1", "C15", "AX1"),
     ("r2-C16-1", "C16", "SH4"), ("r2-C16-2", "C16", "R1c"),
     ("r2-C19-2", "C19", "K4"),
     ("r2-C20-1", "C20", "K3"),
